@@ -18,7 +18,7 @@ func init() {
 	register("C16", func(tier string) CheckSpec {
 		depth, budget := 5, 280*time.Second
 		if tier == "thorough" {
-			depth, budget = 7, 40*time.Minute
+			depth, budget = 7, 20*time.Minute
 		}
 		var us []Unit
 		for _, f := range []struct {
